@@ -6,7 +6,7 @@
     carries explicit fuel; the theorems below include that the stated fuel suffices (the
     result is [Some _]). Ancestry [anc] is the reflexive-transitive closure of the parent
     relation; [maximal_in g P x] says x satisfies P and no other element of P descends from x. *)
-From Verif Require Import Base.Prelude Base.DagI Model.C18 Proofs.C18.
+From Verif Require Import Base.Prelude Base.DagI Gen.Tables Model.C18 Proofs.C18 Proofs.C18Codec.
 Local Open Scope nat_scope.
 
 (** Generation numbers: 0 for a commit without parents, else 1 + the largest parent
@@ -84,6 +84,21 @@ Theorem C18_squash :
   (forall o, level_corr o = true -> level_ok o = true).
 Proof. exact squash_thm. Qed.
 
+(** The segment file format (mutable.rs serialize_local_entries vs the reader of
+    readonly.rs): every graph entry written reads back with its generation number, its
+    parents — none, one, two inline, or any larger number through the bit-negated pointer
+    into the overflow table — its change-id slot and its commit id, as long as positions and
+    counts stay below the overflow flag (the writer's own assertions). [entry_ok] states
+    those bounds and the fixed id length. *)
+Theorem C18_codec_roundtrip : forall chg idlen es ovf graph povf,
+  enc_entries chg es ovf = (graph, povf) ->
+  Forall (entry_ok idlen) es -> (N.of_nat (length povf) < C18_OVERFLOW_FLAG)%N ->
+  (forall e, In e es -> (index_of (ce_change e) chg 0 <= U32MAX)%N) ->
+  forall i e, nth_error es i = Some e ->
+    dec_entry idlen graph povf i =
+      (ce_gen e, ce_parents e, index_of (ce_change e) chg 0, ce_id e).
+Proof. exact entries_roundtrip. Qed.
+
 (** The checker run on the implementation's recorded answers: acceptance means the answer
     satisfies the declarative graph statement ... *)
 Theorem C18_checker_sound : forall (g : graph) (q : query), wf g ->
@@ -128,3 +143,5 @@ Print Assumptions C18_is_ancestor.
 Print Assumptions C18_heads.
 Print Assumptions C18_common_ancestors.
 Print Assumptions C18_generation.
+Print Assumptions C18_codec_roundtrip.
+Print Assumptions C18_abs_flat.
